@@ -87,7 +87,7 @@ class SpatialLayer(Layer):
                 return ("const", 1 if comp[0] == self.k else 0)
             if world.x_via_X is not None:
                 tdim, Kfn = world.x_via_X
-                return ("lin", [(Kfn(world, comp[0], self.k), ("__one__", (), (), ()))])
+                return ("lin", [((lambda wv, c0=comp[0]: Kfn(wv, c0, self.k)), ("__one__", (), (), ()))])
             raise Unsupported("physical derivative of the reference coordinate symbol")
         if name == "__one__":
             return None
@@ -105,7 +105,7 @@ class SpatialLayer(Layer):
         if self.kind == "x" and world.x_via_X is not None:
             # affine cell: d/dx_k = sum_j K[j,k] d/dX_j  (K constant on the cell)
             tdim, Kfn = world.x_via_X
-            return ("lin", [(Kfn(world, j, self.k), (name, comp, idx, tuple(sorted(dirs + (("X", j),))))) for j in range(tdim)])
+            return ("lin", [((lambda wv, j=j: Kfn(wv, j, self.k)), (name, comp, idx, tuple(sorted(dirs + (("X", j),))))) for j in range(tdim)])
         return (name, comp, idx, tuple(sorted(dirs + ((self.kind, self.k),))))
 
 
@@ -233,8 +233,12 @@ class World:
             return 0 if part == ".im" else self.const(desc[1])
         if desc[0] == "lin":
             # linear combination sum_t coef_t * symbol_t ; coefficients are constants w.r.t. all deeper layers
+            # (a callable coefficient is evaluated under the deeper layers, so that an outer derivative can differentiate it, e.g. K = J^-1 in
+            # d/dx = K^T d/dX when an enclosing layer varies the cell's vertices)
             tot = 0
             for coef, d2 in desc[1]:
+                if callable(coef):
+                    coef = coef(self.with_layers(self.layers[i:]))
                 tot = N.add(tot, N.mul(coef, self._build(d2, i, part)))
             return tot
         if i == len(self.layers):
